@@ -220,7 +220,57 @@ pub fn run(ctx: &Ctx, rep: &mut Report) {
             Err(p) => rep.violation(&format!("C15:{}", p.sig()), &p.0, &case, J::Null),
         }
     });
+    // call-history independence: on ONE thread (thread-local or static state accumulates there) the same
+    // mixed corpus - valid, invalid, boundary inputs and hand-built trees - is recorded in order, then a
+    // second time in reverse order after everything else has run. A result that depends on what was parsed
+    // or compiled before (leaked counters, caches, registries) differs between the passes.
+    if ctx.wants("order") {
+        let k = ctx.pick(30_000, 600_000);
+        let seed = ctx.seed;
+        let res = std::thread::scope(|sc| {
+            std::thread::Builder::new()
+                .stack_size(64 << 20)
+                .spawn_scoped(sc, move || {
+                    let streams = ["grammar", "mutate", "args2", "numeric", "vocab", "multibyte", "longwords", "special", "trees"];
+                    let ids: Vec<(usize, u64)> = (0..k).map(|i| ((i % streams.len() as u64) as usize, i / streams.len() as u64)).collect();
+                    let rec = |(s, i): (usize, u64)| crate::monitors::c17::record(seed, streams[s], i).1;
+                    let first: Vec<String> = ids.iter().map(|c| rec(*c)).collect();
+                    let mut diffs = vec![];
+                    for (n, c) in ids.iter().enumerate().rev() {
+                        let again = rec(*c);
+                        if again != first[n] {
+                            diffs.push((format!("{}:{}", streams[c.0], c.1), first[n].clone(), again));
+                            if diffs.len() >= 5 {
+                                break;
+                            }
+                        }
+                    }
+                    let errs = first.iter().filter(|r| r.starts_with("ParseErr") || r.contains("CompileErr(")).count();
+                    (first.len(), errs, diffs)
+                })
+                .unwrap()
+                .join()
+        });
+        match res {
+            Ok((n, errs, diffs)) => {
+                rep.evaluations += 2 * n as u64;
+                rep.add("order_records_compared", n as u64);
+                rep.add("order_records_that_are_errors", errs as u64);
+                for (case, a, b) in diffs {
+                    let input = case.rsplit_once(':').map(|(s, i)| crate::monitors::c17::record(seed, s, i.parse().unwrap_or(0)).0).unwrap_or_default();
+                    rep.violation(
+                        "C15:history-dependent",
+                        &format!("the result for input {:?} depends on the calls made before it on the same thread: first pass {} ; after the rest of the corpus {}", input.chars().take(200).collect::<String>(), a.chars().take(200).collect::<String>(), b.chars().take(200).collect::<String>()),
+                        &format!("order:{}", 0),
+                        J::obj(vec![("corpus_case", J::s(&case)), ("input", J::s(&input)), ("first_pass", J::s(&a)), ("second_pass", J::s(&b))]),
+                    );
+                }
+            }
+            Err(_) => rep.inconclusive.push("C15 order stream: the dedicated thread panicked (harness)".into()),
+        }
+    }
     if ctx.only.is_none() {
+        rep.floor("call-history stream compared records", rep.get("order_records_compared") > 500);
         rep.floor("late-render windows observed", rep.get("late_render_windows_checked") >= 3);
         rep.floor("clock windows observed", rep.get("clock_windows_checked") > 50);
         rep.floor("repeated compilations compared", rep.get("compilations_compared") > 500);
